@@ -21,7 +21,7 @@ import sys
 import threading
 
 from .. import decode as dec
-from ..boot import SIM, set_capacity
+from ..boot import SIM, rearm_watchdog, set_capacity
 
 NAME = "S"
 WATCHDOG_S = 60
@@ -226,6 +226,24 @@ def gen_plan(seed, cfg):
     sp = {"strategy": "coin", "p_hot": rng.choice([0.02, 0.05, 0.1, 0.3]),
           "p_cold": rng.choice([0.0, 0.001]), "p_gc": rng.choice([0.0, 0.005, 0.02]),
           "lock_points": False}
+    if not threaded and not plan.get("gc_sweep") and not cold and \
+            rng.random() < (0.003 if tier == "thorough" else 0.005):
+        ki, kj, pn = rng.choice(_seq_pairs())
+        ent = {f"p:{p}": _gen_entries(rng, d) for p, d, f in KERNELS[ki][2]}
+        ent.update({f"c:{p}": _gen_entries(rng, d) for p, d, f in KERNELS[kj][2]})
+        # quick: one seeded first operation + EVERY continuation of length 2 (121 histories);
+        # thorough: every history of length 3 (1 331), or one first operation + every continuation
+        # of length 3 (1 331 histories of length 4)
+        if tier == "quick":
+            ln, prefix = 3, [rng.choice(SEQ_ALPHABET)]
+        elif rng.random() < 0.5:
+            ln, prefix = 3, []
+        else:
+            ln, prefix = 4, [rng.choice(SEQ_ALPHABET)]
+        plan["seq_sweep"] = {"producer": ki, "consumer": kj, "param": pn, "entries": ent,
+                             "len": ln, "prefix": prefix}
+        plan["ops"] = []
+        plan["gc_faults"] = []
     thread_of = [rng.randrange(2) for _ in ops]
     if threaded and len(ops) >= 2:
         # the same history dealt out to two simulated threads: a del in one thread races an
@@ -885,7 +903,8 @@ class Run:
         plan = self.plan
         hk = plan["heap"]
         g, z, poison = hk["twins"][hk.get("twin", 0)]
-        gc.collect()
+        if not getattr(self, "skip_initial_collect", False):
+            gc.collect()
         gc.disable()
         try:
             heap.reset()
@@ -915,6 +934,87 @@ class Run:
         return self
 
 
+SEQ_ALPHABET = ["alias", "alias_struct", "read", "read_struct", "pickle", "feed", "again",
+                "del0", "del1", "del2", "gc"]
+
+
+def _seq_pairs():
+    """(producer kernel, consumer kernel, consumer parameter) such that the producer's output has
+    exactly the type the consumer's parameter wants."""
+    out = []
+    for ki, (a, of, params, od, be) in enumerate(KERNELS):
+        for kj, (a2, of2, params2, od2, be2) in enumerate(KERNELS):
+            for pn, d, f in params2:
+                if tuple(d) == tuple(od) and f == of:
+                    out.append((ki, kj, pn))
+    return out
+
+
+def _seq_ops(sw, word):
+    """The history  n0 = producer(fresh) ; <word>  over the names n0 (tensor), n1 (second name),
+    n2 (its C struct), n3 (pickle copy), n4 (consumer's output)."""
+    ki, kj, pn = sw["producer"], sw["consumer"], sw["param"]
+
+    def fresh(d, f, k):
+        return {"fresh": {"dims": list(d), "fmt": f, "entries": sw["entries"].get(k, [])}}
+
+    def ev(dst):
+        a, of, params, od, be = KERNELS[ki]
+        return {"op": "eval", "dst": dst, "kernel": ki, "variant": 0,
+                "srcs": {p: fresh(d, f, f"p:{p}") for p, d, f in params}}
+
+    ops = [ev("n0")]
+    for w in word:
+        if w == "alias":
+            ops.append({"op": "alias", "dst": "n1", "src": "n0"})
+        elif w == "alias_struct":
+            ops.append({"op": "alias_struct", "dst": "n2", "src": "n0"})
+        elif w == "read":
+            ops.append({"op": "read", "src": "n0"})
+        elif w == "read_struct":
+            ops.append({"op": "read", "src": "n2"})
+        elif w == "pickle":
+            ops.append({"op": "pickle", "dst": "n3", "src": "n0"})
+        elif w == "feed":
+            a, of, params, od, be = KERNELS[kj]
+            ops.append({"op": "eval", "dst": "n4", "kernel": kj, "variant": 0,
+                        "srcs": {p: ({"name": "n0"} if p == pn else fresh(d, f, f"c:{p}")) for p, d, f in params}})
+        elif w == "again":
+            ops.append(ev("n0"))
+        elif w in ("del0", "del1", "del2"):
+            ops.append({"op": "del", "name": "n" + w[-1]})
+        elif w == "gc":
+            ops.append({"op": "gc"})
+    return ops
+
+
+def _seq_sweep(plan):
+    """Bounded exhaustive part of C13's quantifier: EVERY history of the given length over the
+    alphabet {second name, struct alias, read, read through the struct, pickle round trip, feed as
+    input to another kernel, evaluate again into the same name, delete each name, collect} after
+    one evaluation, for one seeded producer/consumer pair.  -> (violations, count, failing plan)"""
+    import copy
+    import itertools
+
+    sw = plan["seq_sweep"]
+    n = 0
+    prefix = tuple(sw.get("prefix") or ())
+    for tail in itertools.product(SEQ_ALPHABET, repeat=sw["len"] - len(prefix)):
+        word = prefix + tail
+        rearm_watchdog()
+        p = copy.deepcopy(plan)
+        p["seq_sweep"] = None
+        p["ops"] = _seq_ops(sw, word)
+        p["gc_faults"] = []
+        r = Run(p)
+        r.skip_initial_collect = n > 0  # the previous history ended with a collection
+        r.run()
+        n += 1
+        if r.violations:
+            return list(r.violations), n, p
+    return [], n, None
+
+
 def _gc_sweep(plan):
     """Fault enumeration for one short history: a collection at EVERY counted trace line of every
     operation, one at a time.  Returns (violations, points)."""
@@ -929,6 +1029,7 @@ def _gc_sweep(plan):
     points = 0
     for i, n in sorted(first.lines_per_op.items()):
         for k in range(n):
+            rearm_watchdog()
             p = copy.deepcopy(base)
             p["gc_faults"] = [[i, k]]
             r = Run(p).run()
@@ -947,6 +1048,24 @@ def run_plan(plan, cfg=None):
     _warm()
     sweep_points = 0
     sweep_vio = []
+    if plan.get("seq_sweep"):
+        vio, count, failing = _seq_sweep(plan)
+        if failing is not None:
+            plan.clear()
+            plan.update(failing)
+        sw = plan.get("seq_sweep") or {}
+        seen = set()
+        out = []
+        for v in vio:
+            key = (tuple(v["properties"]), v["oracle"])
+            if key not in seen:
+                seen.add(key)
+                out.append(v)
+        return {"verdict": "violation" if out else "ok", "violations": out, "stats": dict(SIM.heap.stats),
+                "probes": {"sequence_sweeps": 1, "histories_enumerated_exhaustively": count},
+                "digest": f"seqsweep:{count}", "steps": count,
+                "shape": f"seqsweep:{sw.get('producer')}:{sw.get('consumer')}:{sw.get('len')}:{sw.get('prefix')}",
+                "nontrivial": True, "skip": None}
     if plan.get("gc_sweep") and plan.get("threads", 1) == 1:
         sweep_vio, sweep_points, failing = _gc_sweep(plan)
         if failing is not None:
@@ -985,6 +1104,11 @@ def fingerprint(plan, violation):
 
 
 def sample(plan, res):
+    if plan.get("seq_sweep"):
+        sw = plan["seq_sweep"]
+        return {"sequence_sweep": {"producer": KERNELS[sw["producer"]][0], "consumer": KERNELS[sw["consumer"]][0],
+                                   "length": sw["len"], "alphabet": SEQ_ALPHABET},
+                "verdict": res["verdict"], "digest": res.get("digest")}
     return {"ops": [_brief_op(o) for o in plan["ops"]], "gc_faults": plan["gc_faults"],
             "capacity": plan["capacity"], "heap": {k: plan["heap"][k] for k in ("realloc", "zero", "rz")},
             "verdict": res["verdict"], "digest": res.get("digest")}
@@ -1001,6 +1125,8 @@ def _brief_op(o):
 def shrink_candidates(plan):
     import copy
 
+    if plan.get("seq_sweep"):
+        return
     ops = plan["ops"]
     n = len(ops)
 
